@@ -71,7 +71,7 @@ type RunResult struct {
 	Harness    error
 	// Unsupported: the SQL interpreter met a statement outside its grammar; the run decides nothing
 	Unsupported string
-	Yields      []YieldSite // fault enumeration: the yields of the run that admit a fault
+	Yields      []YieldSite    // fault enumeration: the yields of the run that admit a fault
 	Snapshot    map[rowKey]any // committed state at the end (only when Params["keep_snapshot"] is set)
 	post        []func() ([]Violation, bool)
 }
@@ -360,6 +360,9 @@ func (r *runner) afterStep() {
 	}
 	if r.worker != nil && r.has("replication") {
 		r.addV(r.worker.checkStep(r, recs)...)
+	}
+	if r.worker != nil && r.has("pipeline-reads-own-ledger") {
+		r.addV(r.worker.checkOwn(r)...)
 	}
 }
 
@@ -685,6 +688,9 @@ func (r *runner) finalChecks() {
 	}
 	if r.has("no-5xx-without-fault") {
 		r.addV(checkNo5xx(r)...)
+	}
+	if r.has("reads-respect-features") {
+		r.addV(checkReadsRespectFeatures(r)...)
 	}
 	if r.has("replication") {
 		r.addV(checkReplicationFinal(r)...)
